@@ -20,6 +20,23 @@ CHECKS = {
     },
 }
 
+CHECKS['C06'] = {
+    'text': 'Exclusive-ownership discipline of the two queue classes on every path of every instantiation: guarded-by for '
+            'queueList/freeList (tolerated unlocked empty() pre-checks frozen by function), locked non-empty re-check dominating every '
+            'single-element take, slot types neither copyable nor movable and slot contents touched only in thread-private or locked lists, '
+            'queue mutexes never nested and no dispatch/predicate/slot destruction under them. Breaking a clause gives an interleaving '
+            'that duplicates, loses or corrupts an event or deadlocks.',
+    'note': COMMON_NOTE + 'Not decided: exactly-once/linearizability as such, per-producer order, the benign races of the pre-checks.',
+    'technique': 'lockset (must/may) dataflow over clang CFG, guarded-by table, dominance of locked re-check, class special-member facts',
+}
+CHECKS['C11'] = {
+    'text': 'emptyQueue() formula and evaluation order (list before counter), CounterGuard entered before every take that is followed by '
+            'user code and held over dispatch and put-back, CounterGuard balanced and sole writer of queueEmptyCounter, '
+            'time-out implication (!pred && enabled => empty) by truth table over the extracted predicate.',
+    'note': COMMON_NOTE + 'Not decided: the weak-memory argument (seq_cst RMW + acquire load) that makes the ordering sufficient.',
+    'technique': 'formula extraction + truth table, dominance/must-hold of scope guards over clang CFG, who-may-write rule',
+}
+
 NOT_APPLICABLE = {
 }
 for _i in range(1, 21):
